@@ -19,7 +19,7 @@ from . import absmodel, core, tlc
 FEATURES = ["docstring", "future_import", "comments", "decorators", "nested_defs", "partial_annotations", "typing_import",
             "import_module_runtime", "import_alias", "import_in_function", "existing_tc_block", "star_import", "import_dotted",
             "class_level_code", "module_level_code", "respelled_annotations", "wordy_annotations", "relative_import",
-            "tc_import_in_try", "tc_import_in_function"]
+            "tc_import_in_try", "tc_import_in_function", "reexport_alias_import", "posonly_then_kwonly_params"]
 
 
 def gen_source(feat):
@@ -43,6 +43,8 @@ def gen_source(feat):
         L.append("from zshapes import Circle as C")
     if "relative_import" in f:
         L.append("from .zshapes import Circle")     # the package's own zshapes module, used at run time
+    elif "reexport_alias_import" in f:
+        L.append("from zshapes import Circle as Circle")     # the re-export idiom; the name is used at run time
     if "star_import" in f:
         L.append("from zsh.deep import *")
     if "import_dotted" in f:
@@ -67,7 +69,7 @@ def gen_source(feat):
         L.append("    y = zshapes.area(x)")
     if "import_alias" in f:
         L.append("    z = C()")
-    if "relative_import" in f:
+    if "relative_import" in f or "reexport_alias_import" in f:
         L.append("    zz = Circle()")
     if "nested_defs" in f:
         L += ["    def inner(q):", "        return q", "    x = inner(x)"]
@@ -85,7 +87,7 @@ def gen_source(feat):
     if "class_level_code" in f:
         L += ["    attr = 3", "    names = [n for n in ('a', 'b')]"]
     L += ["    def m(self, p, q=None):", "        return p", "", "    @staticmethod", "    def s(v):", "        return v", ""]
-    L += ["def f3(d):"] + (["    from typing import TYPE_CHECKING"] if "tc_import_in_function" in f else []) + ["    return d", ""]
+    L += ["def f3(d, /, *, lo=None, hi=0):" if "posonly_then_kwonly_params" in f else "def f3(d):"] + (["    from typing import TYPE_CHECKING"] if "tc_import_in_function" in f else []) + ["    return d", ""]
     if "module_level_code" in f:
         L += ["COUNTER[0] = f2(1, 2)", ""]
     return "\n".join(L) + "\n"
@@ -359,7 +361,8 @@ def run_case(case):
         T = lambda v: get_type(vals[v], k)  # noqa: E731
         traces = []
         funcs = {"f1": (getattr(mod.f1, "__wrapped__", mod.f1), ["a", "b"]), "f2": (mod.f2, ["x", "y", "z"]),
-                 "K.m": (mod.K.__dict__["m"], ["p", "q"]), "K.s": (mod.K.__dict__["s"].__func__, ["v"]), "f3": (mod.f3, ["d"])}
+                 "K.m": (mod.K.__dict__["m"], ["p", "q"]), "K.s": (mod.K.__dict__["s"].__func__, ["v"]),
+                 "f3": (mod.f3, ["d", "lo", "hi"] if "posonly_then_kwonly_params" in case["features"] else ["d"])}
         for fname in case["traced"]:
             fn, params = funcs[fname]
             sel = case["types"][fname]
@@ -378,6 +381,7 @@ def run_case(case):
             rec["failed"], rec["err"] = True, str(e)[:300]
             return rec
         rec["res"] = res[:2500]
+        rec["res_full"] = res
         rec["idempotent"] = res2 == res
         if res2 != res:      # what the second application changed (narrows the recorded finding)
             a, b = res.splitlines(), res2.splitlines()
@@ -540,13 +544,39 @@ def gen_cases(pid, tier, seed):
 
 
 MINE = {"C15": {"ApplyFails", "Parses", "ErasureEqual", "Idempotent", "ExistingKept", "AnnotationsPresent", "Overwritten",
-                "NothingInvented", "ConfinedWithoutRequest"},
+                "NothingInvented", "ConfinedWithoutRequest", "Importable", "SameBehaviour"},
         "C16": {"FutureFirst", "ConfinedOnlyNewAnnotationOnly", "ConfinedAllNew", "ExistingUnmoved", "RuntimeNeedsAtRuntime",
                 "Importable", "SameBehaviour"}}
 
 
+def only_special_params_mismatch(rec):
+    """The recorded libcst finding's footprint: the positions whose applied annotation does not denote the stub's are all
+    positional-only / keyword-only parameters (libcst's ApplyTypeAnnotationsVisitor neither imports nor re-qualifies the
+    names used in their annotations), and there is at least one."""
+    try:
+        tree = ast.parse(rec.get("res_full") or rec.get("res", ""))
+    except SyntaxError:
+        return False
+    special = set()
+
+    def walk(body, path):
+        for n in body:
+            if isinstance(n, (ast.FunctionDef, ast.AsyncFunctionDef)):
+                q = ".".join(path + [n.name])
+                special.update((q, a.arg) for a in n.args.posonlyargs + n.args.kwonlyargs)
+                walk(n.body, path + [n.name])
+            elif isinstance(n, ast.ClassDef):
+                walk(n.body, path + [n.name])
+    walk(tree.body, [])
+    mism = [p for p in rec["positions"] if p["stub"] and p["res"] != p["stub"] and (not p["src"] or rec["overwrite"])]
+    return bool(mism) and all((p["f"], p["pos"]) in special for p in mism)
+
+
 def signature(clause, rec, case):
     sig = {"clause": clause, "confine": case["confine"]}
+    if clause in ("AnnotationsPresent", "Idempotent", "Importable", "SameBehaviour"):
+        if only_special_params_mismatch(rec):
+            sig["only_posonly_or_kwonly_annotations_not_imported_or_requalified"] = True
     gone = [i for i in rec["src_imports"] if not any(
         (j["kind"], j["module"], j["name"], j["alias"], j["block"]) == (i["kind"], i["module"], i["name"], i["alias"], i["block"])
         for j in rec["res_imports"])]
@@ -585,7 +615,7 @@ def main(pid, tier, seed, replay=None):
     records = run_cases(cases)
     by_tid = {r["tid"]: r for r in records}
     case_by = {c["tid"]: c for c in cases}
-    slim = [{k: v for k, v in r.items() if k not in ("err", "stub", "res")} for r in records]
+    slim = [{k: v for k, v in r.items() if k not in ("err", "stub", "res", "res_full")} for r in records]
     for r in slim:
         for it in r["src_imports"] + r["res_imports"]:
             it.pop("bound", None)
